@@ -765,14 +765,13 @@ func (c *mgCtx) call(x *ast.CallExpr) mgVal {
 	case k.Tuple != "":
 		mgFail(x, "%s in expression position (allowed as `a, b := %s(..)`)", k.Tuple, k.Tuple)
 	case k.ErrNew:
-		// the arguments are only formatted into the message, which is not modelled: literals and variables only
+		// the arguments are only formatted into the message, which is not modelled: literals and identifiers only
 		for _, a := range x.Args {
 			switch y := a.(type) {
 			case *ast.BasicLit:
 			case *ast.Ident:
-				if _, ok := c.env[y.Name]; !ok {
-					mgFail(a, "argument %s of %s is not a literal or a variable", exprText(a), exprText(x.Fun))
-				}
+				// a local, a parameter, or a package-level name: reading an identifier neither panics nor has an effect
+				_ = y
 			default:
 				mgFail(a, "argument %s of %s is not a literal or a variable", exprText(a), exprText(x.Fun))
 			}
